@@ -1,1 +1,2 @@
-//! Harness contracts for C11.
+//! C11 uses the NFT harness contracts of `contracts/c10.rs` (NftBaseX / NftEnumX / NftConsX) and the
+//! three example contracts; it needs no contract of its own.
